@@ -260,6 +260,7 @@ def run_check(prop: str, tier: str, seed: int, replay: str | None = None) -> int
     mode_list = meta.get("modes", ["cext"])
     soft = meta.get("soft_s", {}).get(tier, 75 if tier == "quick" else 900)
     hard = meta.get("hard_s", {}).get(tier, max(600, soft * 6))
+    soft = soft * float(os.environ.get("VERIF_SOFT_SCALE", "1"))  # testing aid only
     scratch = f"/dev/shm/vf-{prop}-{os.getpid()}"
     os.makedirs(scratch, exist_ok=True)
     env = dict(os.environ)
@@ -283,7 +284,20 @@ def run_check(prop: str, tier: str, seed: int, replay: str | None = None) -> int
         results, failures = [], []
         pending = list(jobs)
         running = []
-        while pending or running:
+        attempt = 1
+        while pending or running or _starved(meta, results, failures, replay, attempt):
+            if not pending and not running:
+                # A loaded machine made the soft budget run out before a later part of the
+                # workload reached its monitors (required counter still zero, shards stopped
+                # at the soft deadline, nothing else wrong): run the workload once more with
+                # three times the budget instead of reporting "inconclusive".  Results of
+                # both passes are merged; the seeds are the same, so nothing new can fire
+                # that a less loaded machine would not have produced in one pass.
+                attempt += 1
+                soft, hard = soft * 3, hard * 3
+                pending = list(jobs)
+                sys.stderr.write(f"[{prop}] soft budget exhausted before all monitors were reached; "
+                                 f"second pass with soft={soft}s\n")
             while pending and len(running) < maxpar:
                 m, i = pending.pop(0)
                 out = os.path.join(scratch, f"r-{m}-{i}.json")
@@ -328,6 +342,19 @@ def run_check(prop: str, tier: str, seed: int, replay: str | None = None) -> int
             except Exception:
                 pass
         shutil.rmtree(scratch, ignore_errors=True)
+
+
+def _starved(meta, results, failures, replay, attempt) -> bool:
+    if replay or attempt >= 2 or failures or not results:
+        return False
+    if not any(r.get("stopped_early") for r in results):
+        return False
+    if any(r.get("violations") for r in results):
+        return False
+    counters = Counter()
+    for r in results:
+        counters.update(r["counters"])
+    return any(counters.get(req, 0) <= 0 for req in meta.get("require", []))
 
 
 def _conclude(prop, meta, tier, seed, nshards, mode_list, results, failures, t0, replaying=False):
